@@ -201,7 +201,7 @@ def generate(tier):
     return out
 
 
-RULE = ('structs and enum variants with 1..F fields (tuple and named) x every position of the Deref marker x every position '
+RULE = ('wide (5-6 fields, 5-variant enum) and very wide (12 fields, markers at 0, 1, 9, 10, 11) elements; other attributes (doc comment, #[allow], #[cfg(all())], another trait\'s #[educe]) or PhantomData fields on the non-designated positions; structs and enum variants with 1..F fields (tuple and named) x every position of the Deref marker x every position '
         'of the DerefMut marker (independent; optional marker on a sole field) x {Deref; Deref + DerefMut; DerefMut with a '
         'hand-written Deref} x designated field type {V, &V, &&V, &mut V}; two/three-variant enums with independent '
         'designations; oracle: address of &*x / &mut *x equals the address of the designated field (of the referent for '
